@@ -21,6 +21,27 @@ pub fn subs() -> Vec<Box<dyn AnySub>> {
             strat: || plan(PlanOpts { logical: LogicalOpts { max_headers: 6, ..LogicalOpts::default() }, ..PlanOpts::default() }),
             check: check_roundtrip,
         }),
+        // HTTP/2-style requests: no Host header, absolute-form target, ":authority" in the signed list
+        Box::new(Sub {
+            name: "roundtrip-h2-authority",
+            quick: 8_000,
+            thorough: 100_000,
+            strat: || {
+                plan(PlanOpts { plain_spelling: true, ..PlanOpts::default() })
+                    .prop_map(|mut p| {
+                        p.logical.headers.retain(|(n, _)| n != "host");
+                        p.spec.signed_headers.retain(|h| h != "host");
+                        p.spec.signed_headers.push(":authority".into());
+                        p.spec.signed_headers.sort();
+                        p.spelling.version = if p.instant.secs.rem_euclid(2) == 0 { 2 } else { 3 };
+                        p.spelling.absolute_form = 1 + p.instant.secs.rem_euclid(3) as u8;
+                        p.cfg.reqs = Reqs::default();
+                        p
+                    })
+                    .boxed()
+            },
+            check: check_roundtrip,
+        }),
         Box::new(Sub {
             name: "roundtrip-large-fold",
             quick: 150,
@@ -85,8 +106,9 @@ pub fn check_roundtrip(p: &Plan, cc: &mut CaseCtx) -> CheckResult {
         // An accepted request must still come back as submitted. Where the model cannot say whether folding
         // applies, nothing more is checked; where it can (e.g. a merged URI too large for http::Uri) the
         // round trip below applies to whatever the crate chose to accept.
+        let fold_known = !matches!(body_mode(&case.req, case.cfg.fold), BodyMode::Unspecified(_));
         match a.verdict() {
-            Verdict::Unspecified { why, .. } if why.contains("exceeds what http::Uri can hold") => {}
+            Verdict::Unspecified { .. } if fold_known => {}
             _ => return Ok(()),
         }
     }
@@ -137,8 +159,10 @@ pub fn check_roundtrip(p: &Plan, cc: &mut CaseCtx) -> CheckResult {
         }
         folded_interesting = !a.url_pairs.is_empty() && !a.body_pairs.is_empty();
     } else {
-        if ret.uri != sent.uri {
-            return Err(Failure::new("returned-uri", format!("sent {:?} got back {:?}", sent.uri, ret.uri)));
+        // compare with the target as the http crate holds it (it lower-cases the scheme of an absolute-form target)
+        let submitted = exec::build_http(sent).map(|r| r.uri().to_string()).unwrap_or_else(|_| sent.uri.clone());
+        if ret.uri != submitted {
+            return Err(Failure::new("returned-uri", format!("sent {:?} got back {:?}", submitted, ret.uri)));
         }
         if ret.body != sent.body {
             return Err(Failure::new("returned-body", format!("sent {} body bytes, got back {} (or different content)", sent.body.0.len(), ret.body.0.len())));
